@@ -295,7 +295,7 @@ namespace ratio
         return new arith_item(*this, get_type(xprs), l);
     }
 
-    CORE_EXPORT arith_expr core::mult(const std::vector<arith_expr> &xprs) noexcept
+    CORE_EXPORT arith_expr core::mult(const std::vector<arith_expr> &xprs)
     {
         assert(xprs.size() > 1);
         if (auto var_it = std::find_if(xprs.cbegin(), xprs.cend(), [this](const auto &ae)
@@ -307,7 +307,8 @@ namespace ratio
             for (const auto &xpr : xprs)
                 if (xpr != c_xpr)
                 {
-                    assert(lra_th.lb(xpr->l) == lra_th.ub(xpr->l) && "non-linear expression..");
+                    if (lra_th.lb(xpr->l) != lra_th.ub(xpr->l))
+                        throw std::invalid_argument("non-linear expression..");
                     assert(lra_th.value(xpr->l).get_infinitesimal() == rational::ZERO);
                     l *= lra_th.value(xpr->l).get_rational();
                 }
@@ -325,12 +326,12 @@ namespace ratio
         }
     }
 
-    CORE_EXPORT arith_expr core::div(const std::vector<arith_expr> &xprs) noexcept
+    CORE_EXPORT arith_expr core::div(const std::vector<arith_expr> &xprs)
     {
         assert(xprs.size() > 1);
-        assert(std::all_of(++xprs.cbegin(), xprs.cend(), [this](const auto &ae)
-                           { return lra_th.lb(ae->l) == lra_th.ub(ae->l); }) &&
-               "non-linear expression..");
+        if (!std::all_of(++xprs.cbegin(), xprs.cend(), [this](const auto &ae)
+                         { return lra_th.lb(ae->l) == lra_th.ub(ae->l); }))
+            throw std::invalid_argument("non-linear expression..");
         assert(lra_th.value(xprs[1]->l).get_infinitesimal() == rational::ZERO);
         rational c = lra_th.value(xprs[1]->l).get_rational();
         for (size_t i = 2; i < xprs.size(); ++i)
@@ -338,6 +339,8 @@ namespace ratio
             assert(lra_th.value(xprs[i]->l).get_infinitesimal() == rational::ZERO);
             c *= lra_th.value(xprs[i]->l).get_rational();
         }
+        if (c == rational::ZERO)
+            throw std::invalid_argument("division by zero..");
         return new arith_item(*this, get_type(xprs), xprs.at(0)->l / c);
     }
 
